@@ -391,9 +391,16 @@ func init() {
 		}
 		jobs = append(jobs, s1job("groundplane", d, []string{"C20"}, 4, budget))
 		jobs = append(jobs, check.Job{Kind: "prims", Name: "IN:primitives"})
+		b := 2
+		if tier == "thorough" {
+			b = 3
+		}
+		for _, blk := range []string{"c20-lastleave-vs-join-close", "c20-lastleave-vs-join-switch", "c09-quad-quad", "c09-quad-region", "c09-mergequad-region"} {
+			jobs = append(jobs, s2job(blk, b, budget))
+		}
 		return jobs
 	}, check.PropInfo{
-		Rule:        "(b) primitives (dot, cross, normal, overlap test, ray-quad intersection) over the full product of a 13-value float32 alphabet per coordinate against math/big references (cases whose exact intermediate exceeds float32 range, or that sit on a decision boundary within rounding, are counted as skipped); (a) the grid alone through its exported API, built as the module builds it (NewRegularGrid(1,1,2)): explicit-state BFS over insertion sequences from a lattice of quads (appends, merges, cascades, growth in all directions); in every reached state: every stored plane registered in every cell its footprint overlaps, a covering region query returns each plane exactly once, a vertical ray through each centre hits a plane, bounds contain every footprint, PlaneCount = distinct planes, no panic; (c) session level (S1 family groundplane): samples shared by members and retained across joins/leaves",
+		Rule:        "(b) primitives (dot, cross, normal, overlap test, ray-quad intersection) over the full product of a 13-value float32 alphabet per coordinate against math/big references (cases whose exact intermediate exceeds float32 range, or that sit on a decision boundary within rounding, are counted as skipped); (a) the grid alone through its exported API, built as the module builds it (NewRegularGrid(1,1,2)): explicit-state BFS over insertion sequences from a lattice of quads (appends, merges, cascades, growth in all directions); in every reached state: every stored plane registered in every cell its footprint overlaps, a covering region query returns each plane exactly once, a vertical ray through each centre hits a plane, bounds contain every footprint, PlaneCount = distinct planes, no panic; (c) session level: S1 family groundplane (samples shared by members and retained across joins/leaves) and S2 blocks (concurrent inserts, insert vs region query, merge vs region query, last departure vs join) under every interleaving with a bounded number of preemptions",
 		Assumptions: []string{"quads are horizontal with positive half-extents on a finite lattice bounded by 64 m", "states de-duplicated by a canonical dump of the exported grid fields"},
 	})
 }
